@@ -20,7 +20,8 @@ LEAN = os.path.join(ROOT, "lean")
 HARNESS = os.path.join(ROOT, "harness")
 WORK = os.path.join(ROOT, ".work")
 BIN = os.path.join(ROOT, ".build")
-REPO = "/repo"
+REPO = os.environ.get("VERIF_REPO", "/repo")      # a scratch worktree may be substituted for mutation testing
+ALT = REPO != "/repo"
 ALLOWED_AXIOMS = {"propext", "Classical.choice", "Quot.sound"}
 FORBIDDEN = re.compile(r"\bsorry\b|\badmit\b|^\s*axiom\s|native_decide|bv_decide|implemented_by|\bunsafe\s|maxHeartbeats\s+0\b|@\[extern")
 
@@ -115,7 +116,7 @@ def run_translator(cfg, notes):
     if rc != 0:
         notes.append("translator build failed: " + out[-2000:])
         return False, []
-    rc, out = sh([exe] + tr["args"], cwd=ROOT, env=GOENV)
+    rc, out = sh([exe, "-repo", REPO] + tr["args"], cwd=ROOT, env=GOENV)
     if rc != 0:
         notes.append("translator failed: " + out[-2000:])
         return False, []
@@ -168,16 +169,25 @@ def audit_axioms(cfg):
 
 def build_harness(cfg):
     os.makedirs(BIN, exist_ok=True)
-    exe = os.path.join(BIN, cfg["harness"])
+    hdir = HARNESS
+    exe = os.path.join(BIN, cfg["harness"] + ("-alt-" + hashlib.md5(REPO.encode()).hexdigest()[:8] if ALT else ""))
     if os.path.exists(exe):
         os.remove(exe)
+    if ALT:
+        # private copy of the harness module pointing at the substituted repository
+        hdir = os.path.join(WORK, cfg["id"] + "-alt", "harness")
+        if os.path.exists(hdir):
+            shutil.rmtree(hdir)
+        shutil.copytree(HARNESS, hdir)
+        gm = open(os.path.join(hdir, "go.mod")).read().replace("=> /repo", "=> " + REPO)
+        open(os.path.join(hdir, "go.mod"), "w").write(gm)
     # keep go.sum in step with the repository's
     try:
-        shutil.copy(os.path.join(REPO, "go.sum"), os.path.join(HARNESS, "go.sum"))
+        shutil.copy(os.path.join(REPO, "go.sum"), os.path.join(hdir, "go.sum"))
     except OSError:
         pass
     tags = cfg.get("harness_tags", "verif")
-    rc, out = sh(["go", "build", "-tags", tags, "-o", exe, "./cmd/" + cfg["harness"]], cwd=HARNESS, env=GOENV, timeout=1800)
+    rc, out = sh(["go", "build", "-tags", tags, "-o", exe, "./cmd/" + cfg["harness"]], cwd=hdir, env=GOENV, timeout=1800)
     return rc, out, exe
 
 
@@ -216,7 +226,8 @@ def parse_results(casefile, verdictfile):
 
 
 def load_known(pid):
-    path = os.path.join(ROOT, "known-findings.json")
+    # known/<pid>.json is the per-property source; known-findings.json is the committed aggregate
+    path = os.path.join(ROOT, "known", pid + ".json")
     if not os.path.exists(path):
         return []
     data = json.load(open(path))
@@ -283,7 +294,7 @@ def main():
     seed = a.seed if a.seed is not None else int(os.environ.get("VERIF_SEED", cfg.get("seed", 20260929)))
     tier = a.tier
     n = a.cases or cfg["cases"][tier]
-    work = os.path.join(WORK, pid)
+    work = os.path.join(WORK, pid + ("-alt" if ALT else ""))
     os.makedirs(work, exist_ok=True)
     notes, violations, known_lines = [], [], []
     known = load_known(pid)
@@ -331,8 +342,7 @@ def main():
         if not ok_ax:
             obligations_broken.append("axiom audit: " + msg[-1500:])
         if tier == "thorough" and cfg.get("leanchecker", True):
-            with Lock("lake"):
-                rc, out = sh(["lake", "env", "leanchecker"] + cfg["lean_modules"], cwd=LEAN, timeout=3600)
+            rc, out = sh(["lake", "env", "leanchecker"] + cfg["lean_modules"], cwd=LEAN, timeout=3600)
             if rc != 0:
                 obligations_broken.append("leanchecker: " + out[-1500:])
             else:
@@ -439,7 +449,7 @@ def main():
     if fails:
         tag, line, clause, kid = fails[0]
         rp = write_replay(pid, "input", {"property": pid, "kind": cfg.get("replay_kind", "input"), "seed": seed,
-                          "clause": clause, "cases": [line], "others": [l for _, l, _, _ in fails[1:20]],
+                          "clause": clause, "cases": [line], "others": [l for _, l, _, _ in fails[1:6]],
                           "n_failing": len(fails),
                           "replay_cmd": f"./check {pid} --replay <this file>"})
         print(f"VIOLATION property={pid} replay={rp}")
@@ -513,7 +523,8 @@ def finish(pid, cfg, tier, seed, t0, thm_report, cov_extra, samples, an, broken,
         "wall_s": round(time.time() - t0, 2),
         "violations": violations,
     }
-    with open(os.path.join(ROOT, "evidence", pid + ".json"), "w") as f:
+    evpath = os.path.join(ROOT, "evidence", pid + ".json") if not ALT else os.path.join(WORK, pid + "-alt", "evidence.json")
+    with open(evpath, "w") as f:
         json.dump(ev, f, indent=1)
 
 
